@@ -246,8 +246,9 @@ func Harness_C08_C09_C28_structure() {
 
 // C08 (order and actions): three rules with one symbolic integer condition each, a drop flag, a
 // rate or a downstream deterministic sampler: the first matching rule in configuration order
-// decides; a downstream sampler's answer is passed through.
-func Harness_C08_order() {
+// decides; a downstream sampler's answer is passed through. C04: a trace the rules keep has a
+// sampling rate of at least 1 (the collector multiplies span rates by it).
+func Harness_C04_C08_order() {
 	zz.MustCover("(*github.com/honeycombio/refinery/sample.RulesBasedSampler).GetSampleRate")
 	zz.Bound("rules", 3)
 	zz.Bound("spans", 1)
@@ -319,5 +320,6 @@ func Harness_C08_order() {
 	zz.Assert(rate == uint(rates[first]), "the applied rule's rate is reported")
 	zz.Assert(zz.Implies(drop[first], !keep), "a matching drop rule drops")
 	zz.Assert(zz.Implies(rates[first] == 0, !keep), "rate 0 keeps nothing")
+	zz.Assert(zz.Implies(keep, rate >= 1), "a kept trace has a sampling rate of at least 1")
 	zz.Assert(zz.Implies(zz.And(!drop[first], rates[first] == 1), keep), "rate 1 keeps everything")
 }
